@@ -263,6 +263,13 @@ static void encode_imm_data_transfer(struct instr *instrc) {
     DO_NOT_PAD(instrc->cons, instrc->reduced_imm, MAX_UNSIGNED_32BIT);
     return;
   }
+  // a 32-bit register takes the low half of a negative 32 bit value
+  if (IN_RANGE(instrc->cons, NEG32BIT + 1, NEG64BIT) &&
+      (instrc->cons & NEG32BIT_CHECK) && !instrc->mem_disp &&
+      ((instrc->opd[0].reg & MODE_MASK) == reg32 ||
+       (instrc->opd[0].reg & MODE_MASK) == ext32)) {
+    DO_NOT_PAD(instrc->cons, instrc->reduced_imm, MAX_UNSIGNED_32BIT);
+  }
   if (instrc->cons <= MAX_UNSIGNED_32BIT) {
     if ((instrc->assembly_opt & NASM_MOV_IMM) && !instrc->mem_disp)
       nasm_register_size_optimize(instrc);
